@@ -122,6 +122,19 @@ impl MetaStore {
         self.next_wal_id
     }
 
+    #[cfg(locustdb_verif)]
+    pub fn verif_parts(&self) -> Vec<serde_json::Value> {
+        let mut parts: Vec<&PartitionMetadata> = self.partitions().collect();
+        parts.sort_by_key(|p| (p.tablename.clone(), p.id));
+        parts
+            .iter()
+            .map(|p| {
+                serde_json::json!({"table": p.tablename, "id": p.id, "offset": p.offset, "len": p.len,
+                    "keys": p.subpartitions.iter().map(|s| s.subpartition_key.clone()).collect::<Vec<_>>()})
+            })
+            .collect()
+    }
+
     /// Iterate over all partitions in the metastore. (used once on startup to restore tables)
     pub fn partitions(&self) -> impl Iterator<Item = &PartitionMetadata> {
         self.partitions.values().flat_map(|x| x.values())
